@@ -260,8 +260,11 @@ def key_decrypt(rep, prog):
             kinds['own'] += 1
             sel = s.env.get('pkesk')
             t = render(sel) if sel is not None else ''
-            conj = all(x in t for x in ('message._sessionkeys', 'isinstance(pk, PKESessionKey)', 'pk.encrypter == self.fingerprint.keyid',
-                                        'pk.pkalg == self.key_algorithm'))
+            _m = re.search(r'for (\w+) in message\._sessionkeys', t)
+            _v = _m.group(1) if _m else 'pk'
+            conj = all(x in t.replace(' ', '') for x in ('message._sessionkeys', 'isinstance(%s,PKESessionKey)' % _v,
+                                                         '%s.pkalg==self.key_algorithm' % _v)) and \
+                any(x in t.replace(' ', '') for x in ('%s.encrypter==self.fingerprint.keyid' % _v, 'self.fingerprint.keyid==%s.encrypter' % _v))
             rep.check(conj, 'C04.6', 'PGPKey.decrypt', 'session-key packet selection %s' % t[:140],
                       'the packet used must be a public-key session-key packet of this message addressed to this key id and algorithm',
                       where=fi.where, expected='next(pk for pk in message._sessionkeys if isinstance(pk, PKESessionKey) and '
